@@ -177,7 +177,7 @@ def rust_script(script, key_codes):
     return ops
 
 
-def run_rust(scenarios_scripts, key_codes, obs_lcd=False, timeout=900, obs_full=False):
+def run_rust(scenarios_scripts, key_codes, obs_lcd=False, timeout=900, obs_full=False, valgrind=False):
     """[(scenario, script)] -> list of observation lists (one per step/obs op)."""
     from . import rust
     payload = []
@@ -187,9 +187,16 @@ def run_rust(scenarios_scripts, key_codes, obs_lcd=False, timeout=900, obs_full=
              "obs_lcd": obs_lcd, "obs_full": obs_full, "bare": bool(scen.get("bare")),
              "script": rust_script(script, key_codes)}
         payload.append(p)
-    rr = rust.run("rt", payload, timeout=timeout)
+    if valgrind:
+        rr, rep = rust.run_valgrind("rt", payload, timeout=timeout)
+        if rr is None or len(rr) != len(payload):
+            return None, rep
+    else:
+        rr = rust.run("rt", payload, timeout=timeout)
     outs = []
     for (scen, script), r in zip(scenarios_scripts, rr):
         obs = [o for op, o in zip(script, r["out"]) if op[0] in ("step", "obs")]
         outs.append((obs, r.get("error"), r["out"]))
+    if valgrind:
+        return outs, rep
     return outs
